@@ -379,6 +379,17 @@ def mon_c02(tr: Trace) -> list[Violation]:
             for w in c.before.workers[name].collected_waiters:
                 if w.resolved_event is None and type(e) is w.waiting_for_event and all(getattr(e, k, None) == v for k, v in w.requirements.items()):
                     woken.add(name)
+        resolved_now = set()
+        for name, ws in c.after.workers.items():
+            before_ws = {w.waiter_id: w for w in c.before.workers[name].collected_waiters}
+            for w in ws.collected_waiters:
+                b = before_ws.get(w.waiter_id)
+                if w.resolved_event is e and (b is None or b.resolved_event is not e):
+                    resolved_now.add(name)
+        if resolved_now != woken:
+            out.append(Violation("C02/waiter_resolution_mismatch", f"event T{ty} (target={tgt}) resolved waiters of {sorted(resolved_now)}, "
+                                 f"expected {sorted(woken)}", _replay(tr)))
+            return out
         expect = {n for n, acc in accepts.items() if ty in acc and (tgt is None or tgt == n)} - woken
         got = {n for n, k in placed.items() if k > 0}
         if any(k > 1 for k in placed.values()):
